@@ -8,4 +8,5 @@ git -C /repo apply "$patch" || exit 2
 ( cd /verif && /venv/bin/python check.py $pid $tier ); rc=$?
 git -C /repo checkout -- . ; git -C /repo clean -fdq src
 cp /tmp/evidence_$pid.bak /verif/evidence/$pid.json 2>/dev/null
+( cd /verif && /venv/bin/python check.py --setup >/dev/null 2>&1 )   # generated model back to the unchanged tree
 echo "rc=$rc"
